@@ -17,6 +17,8 @@ import (
 type c18param struct {
 	name, typ, min, max, step string
 	list                      []string
+	// feasibleSpace.distribution: the Go suggestion service samples every numeric parameter uniformly whatever it says
+	dist api.Distribution
 }
 
 func (p c18param) tok() string {
@@ -25,7 +27,7 @@ func (p c18param) tok() string {
 
 func (p c18param) proto() *api.ParameterSpec {
 	t := map[string]api.ParameterType{"int": api.ParameterType_INT, "double": api.ParameterType_DOUBLE, "categorical": api.ParameterType_CATEGORICAL, "discrete": api.ParameterType_DISCRETE}[p.typ]
-	return &api.ParameterSpec{Name: p.name, ParameterType: t, FeasibleSpace: &api.FeasibleSpace{Min: p.min, Max: p.max, Step: p.step, List: p.list}}
+	return &api.ParameterSpec{Name: p.name, ParameterType: t, FeasibleSpace: &api.FeasibleSpace{Min: p.min, Max: p.max, Step: p.step, List: p.list, Distribution: p.dist}}
 }
 
 func genSpace18(rng *rand.Rand) []c18param {
@@ -70,6 +72,9 @@ func genSpace18(rng *rand.Rand) []c18param {
 		case 5:
 			p.typ = "discrete"
 			p.list = pick(rng, [][]string{{"3", "2", "6"}, {"0.1", "0.5"}, {"16", "32", "64", "128"}})
+		}
+		if rng.Intn(2) == 0 {
+			p.dist = api.Distribution(rng.Intn(5))
 		}
 		sp = append(sp, p)
 	}
